@@ -76,12 +76,14 @@ class Lemma:
     step VC (IH: concl for all j in [lo, k)).  (b) custom: `vcs(**args)` returns the proof obligations
     [(name, assumptions, goal)] and `conclusion(**args)` is what a use site may assume once `hyp` holds."""
 
-    def __init__(self, name, params, hyp, concl=None, lo=None, hi=None, props=(), vcs=None, conclusion=None, hints=None):
+    def __init__(self, name, params, hyp, concl=None, lo=None, hi=None, props=(), vcs=None, conclusion=None, hints=None,
+                 uses=None):
         self.name, self.params, self.hyp, self.concl, self.lo, self.hi = name, params, hyp, concl, lo, hi
         self.props = list(props)
         self.vcs = vcs
         self.conclusion = conclusion
         self.hints = hints
+        self.uses = uses or []      # [(lemma name, binder(k=..., **args) -> dict)] lemmas applied inside the induction step
 
 
 def lemma(name, **kw):
